@@ -56,6 +56,7 @@ def main():
     ap.add_argument("--tier", default="quick")
     args = ap.parse_args()
     muts = json.load(open(os.path.join(HERE, "selftest", "mutants.json")))
+    muts = [m for m in muts if not m.get("equivalent")]
     if args.only:
         ids = set(args.only.split(","))
         muts = [m for m in muts if ids & set(m["props"])]
